@@ -180,7 +180,17 @@ fn check_bucket(obs: &mut Obs, newest: usize, p: usize, rng: &mut Rng, label: &s
     let log = scope.lock().map(|s| s.log.clone()).unwrap_or_default();
     match r {
         Err(pn) => obs.violation(format!("get_latest_volume {}", pn.signature()), pn.message, replay),
-        Ok(Err(e)) => obs.violation("get_latest_volume fails against a well-formed bucket", format!("{e:?}"), replay),
+        Ok(Err(e)) => {
+            // a loopback connection that could not be established is the harness's environment
+            // (ephemeral ports), not the code under test: inconclusive, never a verdict
+            if let nexrad_data::result::Error::AWS(nexrad_data::result::aws::AWSError::S3ListObjectsError(re)) = &e {
+                if re.is_connect() {
+                    obs.inconclusive(format!("loopback connect to the simulator failed: {re}"));
+                    return;
+                }
+            }
+            obs.violation("get_latest_volume fails against a well-formed bucket", format!("{e:?}"), replay)
+        }
         Ok(Ok(res)) => {
             let want = if p == 0 { None } else { Some(newest) };
             let got = res.volume.map(|v| v.as_number());
@@ -300,7 +310,7 @@ distinct = distinct (n, k, p); oracle = result is the newest populated directory
         }
     }
     let mut rng = Rng::derive(seed, 15, 1 << 40);
-    for _ in 0..ctx.tier.pick(24, 30_000) {
+    for _ in 0..ctx.tier.pick(24, 8_000) {
         let nw = rng.urange(1, 999);
         let p = match rng.below(5) {
             0 => rng.urange(1, 10),
